@@ -253,6 +253,27 @@ def gen_pairs(rng, tier, count, flags):
     return cases
 
 
+def gen_self_pairs(rng, flag, per_family=2):
+    """Self pairs (V, V) for EVERY family: both members of a generated pair are scored against themselves, so each run has
+    all-distinct, constant, singleton-heavy, Zipf, sparse, ... vectors on the diagonal (clauses C01_self / C03_self)."""
+    out = []
+    for fam in FAMILIES:
+        for j in range(per_family):
+            n = rng.choice([1, 2, 3, 8]) if j == 0 else rng.randint(5, 300)
+            Y, X = gen_pair(rng, fam, n)
+            for v in (Y, X):
+                out.append({"Y": list(v), "X": list(v), "flag": flag, "fam": "self-of-" + fam})
+    # always: an all-distinct identifier against itself (score must be ln n), plain and sparse codes, and a constant
+    for n in (2, rng.randint(5, 400)):
+        p = list(range(n))
+        rng.shuffle(p)
+        out.append({"Y": p, "X": list(p), "flag": flag, "fam": "self-of-alldistinct"})
+        q = _recode_sparse(rng, p)
+        out.append({"Y": q, "X": list(q), "flag": flag, "fam": "self-of-alldistinct"})
+        out.append({"Y": [7] * n, "X": [7] * n, "flag": flag, "fam": "self-of-constant"})
+    return out
+
+
 def exhaustive_pairs(flag, maxlen=5, codes=3):
     import itertools
     out = []
@@ -429,7 +450,8 @@ def mirror_consistency(run, cases, results):
 def report(run, pid, cases, results, clause, obligation):
     """Common tail: count cases, histogram, violations (first one shrunk)."""
     hist = {"family": {}, "n": {"1-4": 0, "5-120": 0, "121-700": 0, "701-3000": 0, ">3000": 0}, "flag_true": 0,
-            "identical_pairs": 0, "model_corr_true": 0, "impl_errors": 0}
+            "identical_pairs": 0, "identical_alldistinct_n>=2": 0, "identical_constant": 0, "model_corr_true": 0,
+            "impl_errors": 0}
     worst = 0.0
     nbad = 0
     for c, (ok, info, t) in zip(cases, results):
@@ -440,6 +462,10 @@ def report(run, pid, cases, results, clause, obligation):
         hist["n"][b] += 1
         hist["flag_true"] += 1 if c["flag"] else 0
         hist["identical_pairs"] += 1 if c["Y"] == c["X"] else 0
+        if c["Y"] == c["X"]:
+            k = len(set(c["Y"]))
+            hist["identical_alldistinct_n>=2"] += 1 if (k == n and n >= 2) else 0
+            hist["identical_constant"] += 1 if k == 1 else 0
         hist["model_corr_true"] += 1 if t[3] else 0
         if "impl_error" in info:
             hist["impl_errors"] += 1
@@ -459,7 +485,9 @@ def report(run, pid, cases, results, clause, obligation):
                           case={"Y": small["Y"], "X": small["X"], "flag": small["flag"], "fam": small.get("fam", "?")},
                           impl=info.get("impl", info.get("impl_error")), model={"value": info["model"], "terms": _short(t),
                                                                                  "tolerance": info["tolerance"]},
-                          clause=clause if "impl_error" not in info else "the call terminates normally: " + info["impl_error"])
+                          clause=("the call terminates normally: " + info["impl_error"]) if "impl_error" in info else
+                          ("a vector scored against itself scores its entropy H(Y) (self pair) — " + clause)
+                          if small["Y"] == small["X"] else clause)
     run.oblige(obligation, nbad == 0, "%d of %d cases disagree" % (nbad, len(cases)) if nbad else
                "worst |impl-model| = %.2f * 2^-24 * (sum|terms|+1e-6), allowed %.0f" % (worst, TOL_FACTOR))
     hist["worst_ratio_in_units_of_2^-24_sumabs"] = round(worst, 3)
@@ -541,6 +569,7 @@ def check(run, replay):
         # symmetry / self / constant clauses are exercised through the same correspondence: add swapped copies
         for c in base[::4]:
             cases.append({"Y": c["X"], "X": c["Y"], "flag": False, "fam": c["fam"] + "-swapped"})
+        cases += gen_self_pairs(run.rng, False, per_family=1)
         if run.tier == "thorough":
             cases += exhaustive_pairs(False)
     results = run_cases("C01", cases)
